@@ -58,6 +58,7 @@ types = [
         field("temp", ref("Temp"), optional=True),
         field("stamps", arr(ref("Stamp")), optional=True),
     ], includes=["Inner"]),
+    record("Outer", [field("audit", ref("Inner"), optional=True), field("tags", arr(ref("Inner")), optional=True), field("attrs", mp(ref("Inner")), optional=True), field("label", prim("string"), optional=True)]),
     record("Annotated", [
         field("id", prim("int64"), optional=True),
         field("created", prim("string"), optional=True),
@@ -66,6 +67,7 @@ types = [
         field("attrs", mp(ref("Inner")), optional=True),
         field("free", prim("string")),
         field("audit", ref("Inner"), optional=True),
+        field("deep", ref("Outer"), optional=True),
     ]),
     record("KeyPart", [field("a", prim("string")), field("b", prim("int64"))]),
     record("ParamPart", [field("p", prim("string"), optional=True), field("q", prim("int32"), optional=True)]),
@@ -75,6 +77,11 @@ types = [
     # detection (types move to the conflictResolution package) and clash renaming in the generator
     record("Node", [field("label", prim("string")), field("peer", ref("Node", "fam.beta.model"), optional=True)], ns="fam.alpha.model"),
     record("Node", [field("weight", prim("int32")), field("back", ref("Node", "fam.alpha.model"), optional=True)], ns="fam.beta.model"),
+    # a package cycle with a second entry point: p.A1 -> q.B -> p.A2, and p.C -> q.B
+    record("A1", [field("b", ref("B", "fam.cyc.q"), optional=True), field("x", prim("string"))], ns="fam.cyc.p"),
+    record("A2", [field("y", prim("int32"))], ns="fam.cyc.p"),
+    record("C", [field("b", ref("B", "fam.cyc.q"), optional=True)], ns="fam.cyc.p"),
+    record("B", [field("a2", ref("A2", "fam.cyc.p"), optional=True)], ns="fam.cyc.q"),
     record("Holder", [field("a", ref("Node", "fam.alpha.model"), optional=True), field("b", ref("Node", "fam.beta.model"), optional=True), field("tag", prim("string"))]),
 ]
 
@@ -110,7 +117,7 @@ resources = [
         action("ping", []),
         action("touch", [field("n", prim("int64"))], ret=ref("Inner"), on_entity=True),
     ]),
-    resource("fam.strs", [("strs", ("k", prim("string")))], ref("Nested"), ALL_REST()),
+    resource("fam.strs", [("strs", ("k", prim("string")))], ref("Nested"), [dict(x, params=[field("view", prim("string"), optional=True), field("n", prim("int32"), optional=True)]) if x["name"] in ("batch_get", "batch_update", "batch_delete", "get") else x for x in ALL_REST()]),
     resource("fam.byname", [("byName", ("name", ref("Name")))], ref("Nested"), ALL_REST(True)),
     resource("fam.bycolor", [("byColor", ("color", ref("Color")))], ref("Inner"), [m("get", True), m("update", True), m("delete", True), m("batch_get", False), m("batch_delete", False)]),
     resource("fam.bytemp", [("byTemp", ("t", ref("Temp")))], ref("Inner"), [m("get", True), m("create", False), m("update", True), m("delete", True), m("batch_get", False), m("batch_update", False), m("batch_delete", False),
@@ -131,7 +138,10 @@ resources = [
     resource("fam.holders", [("holders", ("id", prim("string")))], ref("Holder"), [m("get", True), m("create", False), m("update", True), m("batch_get", False), m("get_all", False)]),
     resource("fam.annotated", [("annotated", ("id", prim("int64")))], ref("Annotated"),
         [m("get", True), m("create", False), m("batch_create", False), m("update", True), m("batch_update", False), m("partial_update", True), m("batch_partial_update", False)],
-        ro=["id", "inner/b", "items/*/b", "audit"], co=["created", "attrs/*/a"]),
+        ro=["id", "inner/b", "items/*/b", "audit", "deep/audit/b", "deep/tags/*/b"], co=["created", "attrs/*/a", "deep/attrs/*/b"]),
+    resource("fam.annotatedre", [("annotatedRe", ("id", prim("string")))], ref("Annotated"),
+        [m("get", True), m("create", False, True), m("batch_create", False, True), m("update", True), m("partial_update", True, True), m("batch_partial_update", False)],
+        ro=["id", "inner/b", "items/*/b", "audit", "deep/audit/b", "deep/tags/*/b"], co=["created", "attrs/*/a", "deep/attrs/*/b"]),
 ]
 
 manifest = {"packageRoot": ROOT, "inputDataTypes": types, "dependencyDataTypes": [], "resources": resources}
